@@ -209,12 +209,25 @@ def run (ps : List Phase) : List Plan → Shell → Shell
   | [], s => s
   | pl :: pls, s => run ps pls (tick ps pl s).1
 
+/-- Number of command phases (`CommandManager.tick` calls that return normally) an accepted Stop needs
+    until the run is stopped: one up to the `yield` of `StopEngineCommand._run`, one for the rest
+    (theorem `OPM.C13.stop_completes`). The oracle of C13 takes its bound from here. -/
+def stopTicks : Nat := 2
+
 /-! ## a corrected method: `_set_method` -/
 
-/-- `Engine.set_method` with a method the merge accepts: the merge branch clears the error state -/
+/-- `Engine.set_method` with a method the merge accepts: the merge branch clears the error state.
+    Both branches install a new interpreter, and `on_interpreter_reset` replaces the CommandManager by an
+    empty one: requests that were accepted but not yet executed (`cmd_queue`) and requests in progress
+    (`cmd_executing`, e.g. a Stop at its `yield`) are dropped; the suspended Stop *instance* stays in the
+    registry.
+    (The interpreter created by the merge has a program that is not started — the transplant of the
+    run state is empty, see the findings of C01 — so `program_is_started` is false until the interpreter
+    phase runs again.) -/
 def fix (s : Shell) : Shell × Bool :=
   if s.started && s.progStarted then
-    ((if s.lastErr then { s with lastErr := false, methodErr := false } else s), true)
-  else (s, false)
+    ((if s.lastErr then { s with lastErr := false, methodErr := false, progStarted := false, queue := [], executing := [] }
+      else { s with progStarted := false, queue := [], executing := [] }), true)
+  else ({ s with queue := [], executing := [] }, false)
 
 end OPM.TickShell
